@@ -156,9 +156,10 @@ def h_base_unchanged(op: int, base_kind: str, changes_kind: str) -> None:
     reached()
 
 
-def h_demo_pack(gcsel: int, base_kind: str) -> None:
+def h_demo_pack(gcsel: int, stacksel: int, base_kind: str) -> None:
     """Pack through a demo storage whose changes refer to objects that live only in the base: whatever the
     gc setting, afterwards every object still reads as before and the base is unchanged."""
+    st = choose(stacksel, 3)
     with untraced():
         import transaction
         import ZODB
@@ -173,7 +174,13 @@ def h_demo_pack(gcsel: int, base_kind: str) -> None:
         tmb.commit()
         cb.close()
         base_before = [B.mtxn_view(t) for t in GR.model_from_storage(base).txns]
-        demo = ZODB.DemoStorage.DemoStorage(base=base)
+        # 0: demo over the base; 1: demo pushed on a demo with (still) empty changes over the base; 2: explicit changes storage
+        if st == 1:
+            demo = ZODB.DemoStorage.DemoStorage(base=base).push()
+        elif st == 2:
+            demo = ZODB.DemoStorage.DemoStorage(base=base, changes=env.mappingstorage())
+        else:
+            demo = ZODB.DemoStorage.DemoStorage(base=base)
         db = ZODB.DB(demo)
         tm = transaction.TransactionManager()
         c = db.open(tm)
@@ -185,6 +192,7 @@ def h_demo_pack(gcsel: int, base_kind: str) -> None:
         tm.commit()
     g = choose(gcsel, 3)
     with untraced():
+        note('stack', st)
         kw = [{}, dict(gc=True), dict(gc=False)][g]
         note('gc', ['default', 'True', 'False'][g])
         from ZODB.serialize import referencesf
@@ -193,6 +201,8 @@ def h_demo_pack(gcsel: int, base_kind: str) -> None:
             note('pack', 'ok')
         except Exception as ex:
             note('pack', type(ex).__name__)
+            # refusing (TypeError: gc not supported in this configuration) is fine; any other failure of a pack is not
+            check(isinstance(ex, TypeError), 'pack through a demo storage fails', type(ex).__name__, str(ex)[:100])
         c.cacheMinimize()
         tm.begin()
         try:
@@ -245,7 +255,7 @@ HARNESSES = [
     Harness('demo_pack', h_demo_pack,
             decides='a pack through a demo storage (default gc, gc on, gc off) whose changes refer to base-only objects leaves every '
                     'object readable with its current state and the base unchanged',
-            symbolic='gc setting selector', bounds='object graph of 4 objects over 2 layers', oracle='state before the pack',
+            symbolic='gc setting selector, stack selector (demo over base / pushed on a demo with empty changes / explicit changes storage)', bounds='object graph of 4 objects over 2 layers', oracle='state before the pack',
             code=['DemoStorage.pack', 'MappingStorage.pack (GC sweep)'],
             quick=dict(timeout=60, shards=shards(base_kind=['mapping', 'file'])), thorough=dict(timeout=60, shards=shards(base_kind=['mapping', 'file']))),
     Harness('base_unchanged', h_base_unchanged,
